@@ -671,6 +671,8 @@ class PhaseField(_Simu):
             self.__old_psiP_e_pg = FeArray.asfearray(
                 np.array(results["psiP_history"], copy=True)
             )
+            # ... also as the trial one, which is what the next Save_Iter commits
+            self.__psiP_e_pg = self.__old_psiP_e_pg
 
         if (
             resetAll
